@@ -101,14 +101,14 @@ type proj struct {
 	ChgSt   []string `json:"chgst"`
 	Stopped bool     `json:"stopped"`
 	// restart manager
-	Pend    []string `json:"pend"`    // per change: none | system | now | other
-	Wfsr    []bool   `json:"wfsr"`    // per change: wait-for-system-restart
-	WB      []int    `json:"wb"`      // per task: wait-for-system-restart-from-boot-id (0 unset)
-	From    int      `json:"from"`    // system-restart-from-boot-id (0 unset)
-	Boot    int      `json:"boot"`    // boot id of the running manager
-	Started bool     `json:"started"` // StartUp done in this process
-	Called  []int    `json:"called"`
-	PFC     []bool   `json:"pfc"`  // restart.PendingForChange per change
+	Pend    []string   `json:"pend"`    // per change: none | system | now | other
+	Wfsr    []bool     `json:"wfsr"`    // per change: wait-for-system-restart
+	WB      []int      `json:"wb"`      // per task: wait-for-system-restart-from-boot-id (0 unset)
+	From    int        `json:"from"`    // system-restart-from-boot-id (0 unset)
+	Boot    int        `json:"boot"`    // boot id of the running manager
+	Started bool       `json:"started"` // StartUp done in this process
+	Called  []int      `json:"called"`
+	PFC     []bool     `json:"pfc"`  // restart.PendingForChange per change
 	Mark    [][]string `json:"mark"` // restart-boundary marks as read back from the tasks
 }
 
